@@ -107,21 +107,9 @@ func genSvcs(r *wire.Rng, nss []string, hosts []string, n int, aliases bool) []s
 		if s.k8s {
 			k8sHost[s.hostname] = true
 		}
-		// ties on creation time are broken by the unique name; services sharing a hostname get
-		// distinct creation times (pickBestVisibleNamespace ranges over a Go map and keeps the
-		// first of two equally old services)
-		for {
-			s.ctime = r.Intn(40)
-			clash := false
-			for _, o := range out {
-				if o.hostname == s.hostname && o.ctime == s.ctime {
-					clash = true
-				}
-			}
-			if !clash {
-				break
-			}
-		}
+		// ties on creation time are broken by the unique name in SortServicesByCreationTime and by the
+		// namespace in pickBestVisibleNamespace (betterVisibleService), so equal times are welcome
+		s.ctime = r.Intn(6)
 		s.name = fmt.Sprintf("n%02d", r.Intn(50)*100+i)
 		np := 1 + r.Intn(3)
 		used := map[int]bool{}
